@@ -4,8 +4,10 @@
    Model/GroFile.v (writer state machine over a byte file with a cursor; reader).
    Decimal values are scaled integers (sign, mantissa, decimals), never floats. *)
 From Coq Require Import List Ascii NArith ZArith Bool Arith Lia.
+
 From GM Require Import Base.Res Base.StrGro Gen.SrcConsts Model.GroCodec Model.GroFile
-  Proofs.GroStr Proofs.GroCodecP Proofs.GroReadP Proofs.GroWriteP Proofs.GroMain.
+  Proofs.GroStr Proofs.GroCodecP Proofs.GroReadP Proofs.GroWriteP Proofs.GroMain
+  Gen.GroKernelsGen Proofs.GroKernelsGenEq.
 Import ListNotations.
 
 (* '{:5d}' then int(): every number of at most five digits, in exactly five columns *)
@@ -63,6 +65,52 @@ Theorem C13_roundtrip : forall (c : wconf) (w d : nat) (vel : bool) (recs : list
 Proof. exact roundtrip. Qed.
 Print Assumptions C13_roundtrip.
 
+(* ---------------------------------------------------------------- the model is the source (DESIGN.md 4.6)
+   Gen/GroKernelsGen.v is re-translated from the text of gaddlemaps/parsers/__init__.py at every run
+   (harness/pytrans_str.py); these theorems state that what the source says now IS the model the theorems above
+   are about: validate_string, _validate_res_atom_numbers (and its use by the line parser), determine_format,
+   the wrap modulus of the two number fields, and the index permutations of the box line. *)
+Theorem C13_model_is_source_validate_string : forall s : bytes,
+  validate_string_gen s = Ok (validate_string s).
+Proof. exact validate_string_gen_eq. Qed.
+Print Assumptions C13_model_is_source_validate_string.
+
+Theorem C13_model_is_source_wrap : WRAP = WRAP_RESNUM_GEN /\ WRAP = WRAP_ATOMNUM_GEN.
+Proof. exact wrap_is_source. Qed.
+Print Assumptions C13_model_is_source_wrap.
+
+Theorem C13_model_is_source_numbers : forall (fmt : nat * bool) (line : bytes),
+  parse_atomline_body fmt line =
+  (let (w, vel) := fmt in
+   let l := drop_final_nl line in
+   if negb (length l =? 20 + w * 3 * (1 + (if vel then 1 else 0))) then Err EIO else
+   let* nums := validate_res_atom_numbers_gen l in
+   let* vals := mapM parse_float (chop_fields (if vel then 6 else 3) w (skipn 20 l)) in
+   Ok (mkratom (fst nums) (strip_py (firstn 5 (skipn 5 l))) (strip_py (firstn 5 (skipn 10 l))) (snd nums) vals)).
+Proof. exact parse_atomline_body_uses_gen. Qed.
+Print Assumptions C13_model_is_source_numbers.
+
+Theorem C13_model_is_source_format : forall line : bytes,
+  determine_format_gen line =
+  rmap (fun p : nat * bool => (Z.of_nat (fst p), (Z.of_nat (fst p) - 5)%Z, snd p)) (determine_format line).
+Proof. exact determine_format_gen_eq. Qed.
+Print Assumptions C13_model_is_source_format.
+
+Theorem C13_model_is_source_box_dump : forall box : list bentry, length box = 9 ->
+  dump_lattice_gro box =
+  (let nv := map (fun i => nth i box bzero) LATTICE_INDEX_DUMP_GEN in
+   let lim := if existsb b_nz (skipn 3 nv) then 9 else 3 in
+   Ok (join_sp (map (fun e => fmt_f BOX_W BOX_D (b_dec e)) (firstn lim nv)))).
+Proof. exact dump_lattice_uses_index. Qed.
+Print Assumptions C13_model_is_source_box_dump.
+
+Theorem C13_model_is_source_box_extract : forall line : bytes,
+  extract_lattice_gro line =
+  (let* vals := mapM parse_float (firstn 9 (split_ws line)) in
+   Ok (scatter pzero LATTICE_INDEX_EXTRACT_GEN vals)).
+Proof. exact extract_lattice_uses_index. Qed.
+Print Assumptions C13_model_is_source_box_extract.
+
 (* ---------------------------------------------------------------- non-vacuity *)
 Local Open Scope char_scope.
 Definition ex_rec1 : grec :=
@@ -109,3 +157,11 @@ Proof.
     repeat constructor; simpl; try lia; try reflexivity.
   - vm_compute. split; reflexivity.
 Qed.
+
+(* the translated kernels on concrete text: a six-character name is cut, a 44-column line has format (8, 3, no velocities) *)
+Example C13_nonvacuous_gen :
+  validate_string_gen ["A"; "B"; "C"; "D"; "E"; "F"] = Ok ["A"; "B"; "C"; "D"; "E"] /\
+  determine_format_gen GenExamples.ex_line_novel = Ok (8%Z, 3%Z, false) /\
+  validate_res_atom_numbers_gen GenExamples.ex_line_nums = Ok (12%Z, 34%Z) /\
+  validate_res_atom_numbers_gen GenExamples.ex_line_badnum = Err EIO.
+Proof. vm_compute. repeat split; reflexivity. Qed.
